@@ -12,6 +12,10 @@ pub mod roles;
 /// Constants.
 pub mod constants;
 
+/// Verification hooks (only with the `verif` feature).
+#[cfg(feature = "verif")]
+pub mod verif;
+
 use anchor_lang::prelude::*;
 use gmsol_store::utils::CpiAuthenticate;
 use instructions::*;
